@@ -27,6 +27,7 @@ Record e2ecase := {
   ec_api : frontobs;            (* Program.assemble / assemble_as_patch *)
   ec_cli : frontobs;            (* python -m a816.cli *)
   ec_symfile : option (list (Z * Z * str));  (* parsed lines of the exported symbol file *)
+  ec_cli_defines : option (list (str * str)); (* -D NAME=VALUE texts given to the command line (None: none) *)
   ec_labeldefs : option (list (Z * Z * str)) (* label definitions observed while labels were resolved (Scope.add_label
                                                 calls outside loop-iteration scopes), as (bank, offset, name), by scope *)
 }.
@@ -110,7 +111,20 @@ Definition corr (t : live) (c : e2ecase) : bool :=
   corr_core t c &&
   (let f := {| fc_format := ec_format c; fc_copier := ec_copier c; fc_config := ec_config c |} in
    let m := file_api f (model_result t c) in
-   front_eqb m (ec_api c) && front_eqb m (ec_cli c)) &&
+   (* the command line evaluates its -D texts itself: model that too *)
+   let m_cli :=
+     match ec_cli_defines c with
+     | None => m
+     | Some texts =>
+         match eval_defines (lv_prec t) texts [] with
+         | Ok defs =>
+             file_api f (assemble_source t (ec_files c)
+                           {| cf_rom := cf_rom (ec_config c); cf_defines := defs |} (ec_name c) (ec_src c))
+         | Err k => (SRaise k, None)
+         | OutOfFuel => (SRaise EOther, None)
+         end
+     end in
+   front_eqb m (ec_api c) && front_eqb m_cli (ec_cli c)) &&
   match ec_symfile c, model_result t c with
   | Some lines, AOk _ final => list_eqb sym_eqb (symbol_lines final) lines
   | Some _, _ => false
